@@ -2,7 +2,7 @@ from vp.core import Inst, API_UNWINDSET
 
 LEVEL = "model_checking"
 SCRIPTS = {0: "ref-unref-own-pixels", 1: "caller-pixels-kept", 2: "alpha-map-kept-alive", 3: "alpha-map-detach", 4: "alpha-map-chains-refused",
-           5: "alpha-map-self-refused", 6: "setters-replace-owned-buffers", 7: "solid-and-gradient", 8: "alpha-map-on-solid-owner", 9: "alpha-map-reattach-same"}
+           5: "alpha-map-self-refused", 6: "setters-replace-owned-buffers", 7: "solid-and-gradient", 8: "alpha-map-on-solid-owner", 9: "alpha-map-reattach-same", 11: "multi-rect-clip-storage"}
 
 
 def instances(tier):
@@ -14,7 +14,7 @@ def instances(tier):
     return L
 
 
-TEXT = ("Bounded symbolic execution of 10 concrete image-lifetime histories through the real API under CBMC's heap model: every free is tracked, "
+TEXT = ("Bounded symbolic execution of 11 concrete image-lifetime histories through the real API under CBMC's heap model: every free is tracked, "
         "so double free, use after free and (with --memory-leak-check) leaks are solver obligations; the harness keeps a reference-count model "
         "and asserts that unref returns TRUE exactly when the model count reaches zero, that the destroy callback has then run exactly once "
         "and never otherwise, that an attached alpha map outlives its own last external reference, that detaching returns the reference, and "
@@ -22,6 +22,6 @@ TEXT = ("Bounded symbolic execution of 10 concrete image-lifetime histories thro
 NOTE = ("Histories are concrete scripts (symbolic histories over heap objects do not get through symbolic execution); only transform values, "
         "alpha origins and pixels are symbolic. Glyph-cache insert/remove is not part of these scripts.")
 RULE = "C20 instance = one concrete history (script)."
-BOUNDS = {"histories": "10 scripts of 3-8 calls over up to 3 images"}
+BOUNDS = {"histories": "11 scripts of 3-8 calls over up to 3 images"}
 OUTSIDE = ["arbitrary (symbolic) call histories", "glyph cache entries (script 10 exists in the harness but does not finish in 1500 s: composite32 inside insert + table loops)", "longer histories"]
 ASSUMPTIONS = ["allocation succeeds (failure is C15)"]
